@@ -258,13 +258,13 @@ theorem where_exact_model (env : Env N) (data : Row N) (t : String) (rows : List
     intro r hr
     simp [evalPred_sound env ⟨data, false, false, _, _⟩ rfl r p (hwt r hr), rawBool])]
   simp only [Bool.false_eq_true, if_false, isAllAggr, sortRows, List.isEmpty_nil, Bool.true_or, if_true,
-    window_none, Bool.not_false]
+    window_none, Bool.not_false, selectRowsWith, Bool.false_and]
   rw [mapE_eq_map_of_ok (g := fun v => match v with | Val.obj fs => starRow fs | v => v)]
   · simp [List.map_map, Function.comp_def]
   · intro x hx
     simp only [List.mem_map] at hx
     obtain ⟨r, _, rfl⟩ := hx
-    simp [evalSel, starRow]
+    simp [evalSel, starRow, Functor.map, Except.map]
 
 
 /-! ### consequences named in the property -/
